@@ -82,6 +82,15 @@ int main (int argc, char** argv)
   // the uniform helper of random.C over scripted random() values: r / RAND_MAX
   for (long r : { 0L, 1L, 12345L, 1073741823L, 1073741824L, 2147483646L, 2147483647L })
     fn ("random_double_r" + std::to_string (r), [r] { random_script = r; out ("u", random_double ()); }, 1);
+#ifndef SYMX_SYMBOLIC
+  // every value of random () maps into [0, 1] and to r / RAND_MAX at full double precision (values that single
+  // precision cannot hold included)
+  fn ("random_double_values_plain", [] {
+    for (long r : { 0L, 1L, 2L, 16777215L, 16777216L, 16777217L, 33554433L, 123456789L, 1073741823L, 1073741825L, 2147483519L, 2147483583L, 2147483584L, 2147483585L, 2147483600L, 2147483646L, 2147483647L }) {
+      random_script = r; double u = random_double (); char what[160];
+      snprintf (what, 160, "random_double () for random () = %ld lies in [0, 1]", r); expect_true (what, u >= 0.0 && u <= 1.0);
+      snprintf (what, 160, "random_double () for random () = %ld equals r / RAND_MAX", r); expect_true (what, u == double (r) / 2147483647.0); } }, 1);
+#endif
 
   symx::finish ();
   return 0;
